@@ -97,15 +97,17 @@ theorem declared_order_irrelevant (lower : Bytes → Bytes) {A A' C C' : List By
       intro u _
       simp [hC u.symbol]
 
-/-- The same for the analyzer itself. -/
+/-- The same for the analyzer itself: the external sets matter only through the membership
+    relation of their union with the journal's own declarations. -/
 theorem analyze_order_irrelevant (lower : Bytes → Bytes) (j : Journal) {A A' C C' : List Bytes}
-    (hA : ∀ x, x ∈ A ↔ x ∈ A') (hC : ∀ x, x ∈ C ↔ x ∈ C') :
+    (hA : ∀ x, x ∈ collectDeclaredAccounts j ++ A ↔ x ∈ collectDeclaredAccounts j ++ A')
+    (hC : ∀ x, x ∈ collectDeclaredCommodities j ++ C ↔ x ∈ collectDeclaredCommodities j ++ C') :
     analyzeInternal lower j A C = analyzeInternal lower j A' C' := by
   rw [rule_exact, rule_exact]
   congr 1
   apply declared_order_irrelevant
-  · intro x; simp [hA x]
-  · intro x; simp [hC x]
+  · simpa only [collectAccounts_eq] using hA
+  · simpa only [collectCommodities_eq] using hC
 
 /-! ### "Once per transaction", spelled out -/
 
@@ -128,6 +130,13 @@ theorem commodity_complete (D : List Bytes) (tx : Transaction) (hD : D ≠ []) (
     ⟨u, List.mem_filter.mpr ⟨hu, by simp [hund]⟩, rfl⟩
   obtain ⟨v, hv, hvs⟩ := (onceEach_symbols _ _).mpr this
   exact ⟨⟨.commodity, v.symbol, v.range⟩, List.mem_map.mpr ⟨v, hv, rfl⟩, rfl, hvs⟩
+
+/-- Non-vacuity of `commodity_complete`: a transaction using an undeclared symbol while another
+    one is declared. -/
+example : ∃ (D : List Bytes) (tx : Transaction) (u : Use), D ≠ [] ∧ u ∈ uses tx ∧ u.symbol ∉ D :=
+  ⟨[[85]], { (default : Transaction) with postings := [{ (default : Posting) with
+      amount := some { (default : Amount) with commodity := ⟨[69], .right, default⟩ } }] },
+    ⟨[69], default⟩, by decide, by simp [uses, postingUses, amountUse], by decide⟩
 
 /-- Every commodity warning points at a real use of an undeclared, non-empty symbol. -/
 theorem commodity_sound (D : List Bytes) (tx : Transaction) (w : Warning)
@@ -272,11 +281,62 @@ def cexInc : Journal :=
 /-- Before the fix, without a workspace, a declaration made in an included file was not
     consulted: `foo:x` was warned about although `foo` is declared in the include tree
     (replays/C18/include-declarations.jsonl reproduces it against the real server). -/
-theorem before_fix_include_declarations_ignored :
+theorem pinned_include_declarations_counterexample :
     (serverAnalyzeUnfixed goLower [cexCur, cexInc] 0 none ⟨true, true, true⟩).length = 1 ∧
     published goLower ⟨[cexCur, cexInc], 0, [1], none⟩ ⟨true, true⟩ = [] ∧
     serverAnalyze goLower [cexCur, cexInc] 0 [1] none ⟨true, true, true⟩ = [] := by
   decide
+
+/-- The code as pinned agrees with the repaired code (hence with the statement, by
+    `server_exact`) exactly when the include tree of the current file declares nothing beyond what
+    the file itself and the workspace declare. -/
+theorem pinned_server_exact_partial (lower : Bytes → Bytes) (files : List Journal) (cur : Nat)
+    (curTree : List Nat) (wsTree : Option (List Nat)) (s : Settings)
+    (gA : ∀ x ∈ declsOf files curTree collectDeclaredAccounts,
+      x ∈ collectDeclaredAccounts (fileAt files cur) ∨ x ∈ wsDecls files wsTree collectDeclaredAccounts)
+    (gC : ∀ x ∈ declsOf files curTree collectDeclaredCommodities,
+      x ∈ collectDeclaredCommodities (fileAt files cur) ∨ x ∈ wsDecls files wsTree collectDeclaredCommodities) :
+    serverAnalyzeUnfixed lower files cur wsTree s =
+      (published lower ⟨files, cur, curTree, wsTree⟩
+        ⟨s.undeclaredAccounts, s.undeclaredCommodities⟩).map renderPub := by
+  rw [← server_exact]
+  simp only [serverAnalyzeUnfixed, serverAnalyze]
+  rw [analyze_order_irrelevant lower (fileAt files cur)
+    (A' := externalAccounts files cur curTree wsTree) (C' := externalCommodities files cur curTree wsTree)]
+  · intro x
+    unfold externalAccounts
+    simp only [List.mem_append]
+    constructor
+    · rintro (h | h)
+      · exact Or.inl h
+      · exact Or.inr (Or.inr h)
+    · rintro (h | (h | h) | h)
+      · exact Or.inl h
+      · exact Or.inl h
+      · exact gA x h
+      · exact Or.inr h
+  · intro x
+    unfold externalCommodities
+    simp only [List.mem_append]
+    constructor
+    · rintro (h | h)
+      · exact Or.inl h
+      · exact Or.inr (Or.inr h)
+    · rintro (h | (h | h) | h)
+      · exact Or.inl h
+      · exact Or.inl h
+      · exact gC x h
+      · exact Or.inr h
+
+/-- Non-vacuity of the guard: with the declaration of `foo` moved into the current file the
+    pinned code is right (and the guard is what fails in the counterexample above). -/
+example : (∀ x ∈ declsOf [{ cexCur with directives := cexInc.directives }, { cexInc with directives := [] }] [1]
+      collectDeclaredAccounts, x ∈ collectDeclaredAccounts
+        (fileAt [{ cexCur with directives := cexInc.directives }, { cexInc with directives := [] }] 0) ∨
+      x ∈ wsDecls [{ cexCur with directives := cexInc.directives }, { cexInc with directives := [] }] none
+        collectDeclaredAccounts) := by
+  intro x hx
+  simp [declsOf, fileAt, collectDeclaredAccounts, cexInc] at hx
 
 /-! ### Non-vacuity and the run-time lower-casing -/
 
